@@ -329,6 +329,12 @@ def run_check(pid, tier, seed, replay):
                         shutil.move(c, dst)
                         keep = dst
             classify(pid, p.returncode, out, to, keep or glog, res, gname, replay_hint=keep)
+        if res.violations:
+            # decided: the remaining stages could only repeat it (and code that breaks one clause often makes a
+            # later stage wait for something that never comes)
+            for (gname, gst, gcmd, genv, gto, gwd, glog) in procs[i:]:
+                stages_run.append(dict(stage=gname, rc=None, timed_out=False, skipped="a violation was already found"))
+            break
     return finish(pid, tier, seed, res, evmerge, evdir, rundir, t0, stages_run, cfg)
 
 
